@@ -219,6 +219,7 @@ var (
 	svcNames   = []string{"Svc", "Api", "BaseSvc", "Admin", "Echo", "svc", "base"}
 	fieldNames = []string{"a", "b", "c", "d", "e", "f", "g", "h"}
 	baseTypes  = []string{"bool", "byte", "i8", "i16", "i32", "i64", "double", "string", "binary"}
+	chainLens  = []int{1, 2, 3, 4, 5, 6, 9, 12, 17, 33}
 )
 
 func (g *gen) reindex() { g.ix = buildIndex(g.p) }
@@ -508,30 +509,55 @@ func (g *gen) genFile(fi int) {
 	}
 	// 2. typedefs, one after the other, each over what exists already (no cycles)
 	ntd := r.Intn(4)
-	chain := 0
-	if r.Chance(30) {
-		chain = 2 + r.Intn(g.maxChain-1)
-	}
-	for i := 0; i < ntd+chain; i++ {
-		alias := g.freshName(fi, aliasNames)
-		var t *TypeX
-		if i >= ntd && i > 0 && len(f.Typedefs) > 0 && r.Chance(85) {
-			// chain link: refer to the previous typedef
-			prev := f.Typedefs[len(f.Typedefs)-1]
-			t = g.refTo(fi, target{-1, g.ix.lookup(fi, prev.Alias)})
-		} else if i >= ntd {
-			// chain start: prefer a typedef or an enum of an include, or a local enum
-			vis := g.visible(fi, typeLike, func(d *defInfo) bool { return d.Kind == "typedef" || d.Kind == "enum" })
-			if len(vis) > 0 {
-				t = g.refTo(fi, vis[r.Intn(len(vis))])
-			}
-		}
-		if t == nil {
-			t = g.genType(fi, 0, typeLike)
-		}
-		f.Typedefs = append(f.Typedefs, &Typedef{Alias: alias, Type: t})
+	for i := 0; i < ntd; i++ {
+		f.Typedefs = append(f.Typedefs, &Typedef{Alias: g.freshName(fi, aliasNames), Type: g.genType(fi, 0, typeLike)})
 		g.reindex()
 	}
+	// a chain of typedefs: every link names the previous one; the lengths go well beyond any small
+	// constant, and the links are written bottom-up, top-down or shuffled (ResolveTypedefs needs one
+	// pass per link when the aliases come first)
+	chainTop := ""
+	if r.Chance(35) {
+		n := chainLens[r.Intn(len(chainLens))]
+		if n > g.maxChain {
+			n = g.maxChain
+		}
+		start := len(f.Typedefs)
+		for i := 0; i < n; i++ {
+			alias := g.freshName(fi, []string{fmt.Sprintf("L%d", i), fmt.Sprintf("T%d", i)})
+			var t *TypeX
+			if i > 0 {
+				prev := f.Typedefs[len(f.Typedefs)-1]
+				t = g.refTo(fi, target{-1, g.ix.lookup(fi, prev.Alias)})
+			} else {
+				// chain start: prefer a typedef or an enum of an include, or a local enum
+				vis := g.visible(fi, typeLike, func(d *defInfo) bool { return d.Kind == "typedef" || d.Kind == "enum" })
+				if len(vis) > 0 && r.Chance(70) {
+					t = g.refTo(fi, vis[r.Intn(len(vis))])
+				} else {
+					t = g.genType(fi, 0, typeLike)
+				}
+			}
+			f.Typedefs = append(f.Typedefs, &Typedef{Alias: alias, Type: t})
+			g.reindex()
+			chainTop = alias
+		}
+		seg := f.Typedefs[start:]
+		switch r.Intn(3) {
+		case 0: // bottom-up: as created
+			g.p.Shape2 = "chain-bottom-up"
+		case 1: // top-down: aliases first
+			reverse(seg)
+			g.p.Shape2 = "chain-top-down"
+		default:
+			shuffle(r, seg)
+			g.p.Shape2 = "chain-shuffled"
+		}
+		if n > g.p.MaxChain {
+			g.p.MaxChain = n
+		}
+	}
+	f.chainTop = chainTop
 	// 3. constant names first (values may refer forward)
 	ncs := r.Intn(5)
 	for i := 0; i < ncs; i++ {
@@ -567,7 +593,13 @@ func (g *gen) genFile(fi int) {
 	}
 	// 5. services
 	for i, n := 0, r.Intn(3); i < n; i++ {
-		s := &Service{Name: g.freshName(fi, svcNames), ExtInc: -1}
+		// services are often called like types of other files: a qualified type name must skip a
+		// service (or constant) of that name in an earlier include with the same prefix
+		spool := svcNames
+		if r.Chance(40) {
+			spool = typeNames
+		}
+		s := &Service{Name: g.freshName(fi, spool), ExtInc: -1}
 		if r.Chance(60) {
 			vis := g.visible(fi, isService, anyDef)
 			if len(vis) > 0 {
@@ -595,6 +627,32 @@ func (g *gen) genFile(fi int) {
 			s.Functions = append(s.Functions, fn)
 		}
 		f.Services = append(f.Services, s)
+		g.reindex()
+	}
+	// 6. the end of the chain is used: field, container, constant type, function signature
+	if f.chainTop != "" {
+		top := func() *TypeX { return g.refTo(fi, target{-1, g.ix.lookup(fi, f.chainTop)}) }
+		st := &StructLike{Name: g.freshName(fi, []string{"ChainUser"})}
+		st.Fields = []*Field{{ID: 1, Name: "a", Type: top()},
+			{ID: 2, Name: "b", Type: &TypeX{K: "l", Val: top(), Inc: -1, TFile: -1}},
+			{ID: 3, Name: "c", Type: &TypeX{K: "m", Key: baseType("string"), Val: &TypeX{K: "s", Val: top(), Inc: -1, TFile: -1}, Inc: -1, TFile: -1}}}
+		f.Structs = append(f.Structs, st)
+		g.reindex()
+		f.Constants = append(f.Constants, &Constant{Name: g.freshName(fi, []string{"kChain"}), Type: top(), Value: &CV{K: "i", Int: 1}})
+		g.reindex()
+		if e, idx := g.ix.enumOf(fi, f.chainTop, 0); e != nil && len(e.Values) > 0 {
+			id := f.chainTop + "." + e.Values[0].Name
+			if cs := g.ix.cands(fi, id); len(cs) == 1 {
+				w := Extra{true, idx, e.Values[0].Name, f.chainTop}
+				if cs[0] == w {
+					f.Constants = append(f.Constants, &Constant{Name: g.freshName(fi, []string{"kChainVal"}), Type: top(), Value: &CV{K: "x", Str: id, Want: &w}})
+					g.reindex()
+				}
+			}
+		}
+		f.Services = append(f.Services, &Service{Name: g.freshName(fi, []string{"ChainSvc"}), ExtInc: -1,
+			Functions: []*Function{{Name: "m", Ret: top(), Args: []*Field{{ID: 1, Name: "a", Type: top()},
+				{ID: 2, Name: "b", Type: &TypeX{K: "l", Val: top(), Inc: -1, TFile: -1}}}}}})
 		g.reindex()
 	}
 }
